@@ -16,7 +16,7 @@ PROPS["C17"] = {
              "distinct = FNV-64 of the serialised case"),
     "assumptions": ["math/big is correct", "the width-w NAF and the centred radix-2^w representation of an integer are unique (textbook)"],
     "units": [{
-        "pkg": "curve/scalar", "configs": {"quick": ["default", "force32bit", "386"], "thorough": ["default", "purego", "force32bit", "386"]},
+        "pkg": "curve/scalar", "configs": {"quick": ["default", "force32bit", "386", "386x64"], "thorough": ["default", "purego", "force32bit", "386", "386x64"]},
         "tests": {
             "TestC17NAF": T(120000, 4000000),
             "TestC17Radix16": T(100000, 3000000),
